@@ -16,14 +16,15 @@ from .ctype import TInt, TPtr, TArray, TRecord, TFunc, TVoid
 
 class V:
     """integer value"""
-    __slots__ = ("t", "lo", "hi", "b")
+    __slots__ = ("t", "lo", "hi", "b", "p2")
 
-    def __init__(self, t, lo=None, hi=None, b=None):
+    def __init__(self, t, lo=None, hi=None, b=None, p2=None):
         if isinstance(t, bool):
             t = int(t)
         if isinstance(t, int):
             lo = hi = t
         self.t, self.lo, self.hi, self.b = t, lo, hi, b     # b: z3 Bool when the value is a 0/1 truth value
+        self.p2 = p2                                        # V c when the value is known to be 2^c (from `1 << c`)
 
     @property
     def concrete(self):
